@@ -428,7 +428,50 @@ Section Num.
                 | None => XErr EValue
                 | Some n => expand r expected (acc ++ repeat None (Z.to_nat n)) (Datatypes.S consumed)
                 end
-              else if Ascii.eqb c "i" || Ascii.eqb c "m" || Ascii.eqb c "g" then XErr EUnmodelled
+              else if Ascii.eqb c "i" || Ascii.eqb c "m" || Ascii.eqb c "g" then
+                (* nI, xM on a card read as floats (IMP cards: no expected=);
+                   with dtype='int' (FILL arrays: round()) and for LOG: outside *)
+                match expected with
+                | Some _ => XErr EUnmodelled
+                | None =>
+                    if Ascii.eqb c "m" then
+                      match but_last s with
+                      | EmptyString => XErr EValue      (* "m" needs a multiplier *)
+                      | p =>
+                          if num_lit p then
+                            match rev acc with
+                            | [] => XErr EIndex
+                            | None :: _ => XErr EType
+                            | Some (v, _) :: _ =>
+                                expand r expected (acc ++ [Some (smul S v (tval t), 0%Z)])
+                                       (Datatypes.S consumed)
+                            end
+                          else XErr EValue
+                      end
+                    else if Ascii.eqb c "i" then
+                      match rev acc, r with
+                      | [], _ => XErr EIndex
+                      | _, [] => XErr EIndex
+                      | lo :: _, up :: r' =>
+                          if num_lit (strip_ws (tsp up)) then
+                            match lo with
+                            | None => XErr EType
+                            | Some (lower, _) =>
+                                match reps s with
+                                | None => XErr EValue
+                                | Some n =>
+                                    if (n <? 0)%Z then XErr EUnmodelled else
+                                    let step := sdiv S (ssub S (tval up) lower) (sofZ S (n + 1)) in
+                                    let mids := map (fun i => Some (sadd S lower (smul S (sofZ S (Z.of_nat i)) step), 0%Z))
+                                                    (seq 1 (Z.to_nat n)) in
+                                    expand r' expected (acc ++ mids ++ [Some (tval up, 0%Z)])
+                                           (Datatypes.S (Datatypes.S consumed))
+                                end
+                            end
+                          else XErr EValue
+                      end
+                    else XErr EUnmodelled
+                end
               else if num_lit s
               then expand r expected (acc ++ [Some (tval t, tint t)]) (Datatypes.S consumed)
               else XErr EValue
@@ -839,12 +882,45 @@ Section Num.
     | None => c_lits (fst p)
     end.
 
+  (* pot_fill recurses into the filling universe first: when a filler is a
+     lattice, each of its elements that holds another universe moves the cells
+     of that universe (a full 12-entry translation: only the facet selectors and
+     the short GQ cards can fail there) *)
+  Fixpoint transform_universe (sm : smap) (l : list (cellc * cellsum)) : res unit :=
+    match l with
+    | [] => Ok tt
+    | fc :: r => do tt <- transform_lits sm 12 (eff_lits fc); transform_universe sm r
+    end.
+
+  Definition lattice_filler_check (sm : smap) (all : list (cellc * cellsum))
+             (fc : cellc * cellsum) : res unit :=
+    match cs_fill (snd fc), cs_lat (snd fc) with
+    | Some (FLat _ univs), Some _ =>
+        (fix go (us : list (option Z)) : res unit :=
+           match us with
+           | [] => Ok tt
+           | Some v :: r =>
+               if (v =? 0)%Z || (v =? cs_u (snd fc))%Z then go r
+               else do tt <- transform_universe sm (fillers v all); go r
+           | None :: r => go r
+           end) univs
+    | _, _ => Ok tt
+    end.
+
+  Fixpoint lattice_fillers_check (sm : smap) (all l : list (cellc * cellsum)) : res unit :=
+    match l with
+    | [] => Ok tt
+    | fc :: r => do tt <- lattice_filler_check sm all fc; lattice_fillers_check sm all r
+    end.
+
   Fixpoint stage_fill (sm : smap) (all cells : list (cellc * cellsum)) : res unit :=
     match cells with
     | [] => Ok tt
     | (c, cs) :: r =>
         do tt <- match cs_fill cs, cs_lat cs with
                 | Some (FUniv u), None =>
+                    do tt <- (if (cs_u cs =? 0)%Z then lattice_fillers_check sm all (fillers u all)
+                              else Ok tt);
                     let k := if (0 <? cs_filltr cs)%nat then Some (cs_filltr cs) else cs_trcl cs in
                     match k with
                     | None => Ok tt
